@@ -28,6 +28,8 @@ def plan(tier, seed):
     # the same fixed cases in processes with different PYTHONHASHSEED; compared in finalize()
     sp += [{'kind': 'hashseed', 'hashseed': hs, 'n': 4 if tier == 'quick' else 40} for hs in HASHSEEDS]
     sp += [{'kind': 'cli', 'year': y, 'n': 3 if tier == 'quick' else 60} for y in (2021, 2022, 2023)]
+    # the same fixed returns solved one after another in one process, in two different sequences (two processes)
+    sp += [{'kind': 'history', 'order': o, 'n': 2 if tier == 'quick' else 12} for o in (0, 1, 2)]
     return sp + realwork.shards('C05', tier)
 
 
@@ -143,6 +145,44 @@ def run_hashseed(spec, tier, seed):
     return res
 
 
+def run_history(spec, tier, seed):
+    """What was solved earlier in the same process is not an input: returns that differ
+    only in filing status but reach the *same* taxable income, the same wages, the same
+    dividends ... are solved in sequence 0 (as listed), 1 (reversed) and 2 (interleaved by
+    year); every return's outcome must be the same in all three processes."""
+    from hv import scen, realwork
+    from hv import statutory as st
+    res = Result()
+    cases = []
+    rng = rng_for('C05hist', seed)
+    for year in (2021, 2022, 2023):
+        for j in range(spec['n']):
+            taxable = round(rng.choice([rng.uniform(3000, 99000), rng.uniform(100000, 400000)]), 0)
+            for status in ('S', 'MFJ', 'MFS', 'HOH', 'QSS'):
+                wages = taxable + st.amount('standard_deduction', year, status)
+                cases.append((f'{year}|{status}|taxable{taxable:.0f}', ('plain', year, status, wages, 1 if status in ('HOH', 'QSS') else 0)))
+        for fam in ('F2', 'F8', 'F5'):
+            for p in scen.personas(seed, year, fam, spec['n']):
+                cases.append((f'{year}|{fam}|{p.key}', ('persona', year, fam, p.key)))
+    if spec['order'] == 1:
+        cases.reverse()
+    elif spec['order'] == 2:
+        cases = cases[::3] + cases[1::3] + cases[2::3]
+    table = {}
+    for label, c in cases:
+        if c[0] == 'plain':
+            p = scen.plain_persona(c[1], c[2], c[3], key='hist', deps_odc=c[4])
+        else:
+            p = scen.Persona(c[1], c[2], c[3])
+        out, tv, _ = realwork.traced(p)
+        res.evaluations += 1
+        table[label] = h(canon(out, tv), 16)
+        res.count('history_' + drive.verdict_class(out).split(':')[0])
+    res.extra['history_tables'] = {str(spec['order']): table}
+    res.count('history_cases', len(table))
+    return res
+
+
 def canon(out, tv, unmap=None):
     um = unmap or (lambda k: k)
     vc = drive.verdict_class(out)
@@ -220,6 +260,8 @@ def run_shard(spec, tier, seed):
         return run_hashseed(spec, tier, seed)
     if spec['kind'] == 'cli':
         return run_cli(spec, tier, seed)
+    if spec['kind'] == 'history':
+        return run_history(spec, tier, seed)
     if spec['kind'] == 'real':
         from hv import realwork
         return realwork.run_shard('C05', spec, tier, seed)
@@ -310,6 +352,16 @@ def finalize(res, tier):
                     res.violation('C05|hashseed', f'{label}: outcome or attempt order differs between PYTHONHASHSEED={base_hs} and {hs}', {'label': label, 'hashseeds': [base_hs, hs]})
     else:
         res.inconclusive.append('hash-seed variants did not run')
+    ht = res.extra.get('history_tables', {})
+    if len(ht) >= 3:
+        for o, t in ht.items():
+            for label, hv_ in t.items():
+                res.count('history_comparisons')
+                if ht['0'].get(label) != hv_:
+                    res.violation(f'C05|history|{label.split("|")[0]}', f'{label}: the outcome of this return depends on which returns were solved before it in the same process (sequence 0 vs {o})',
+                                  {'engine': 'history', 'label': label, 'orders': ['0', o]})
+    else:
+        res.inconclusive.append('process-history sequences did not all run')
     c = res.counters
     if c.get('cli_order_comparisons', 0) < 20 or c.get('cli_failed', 0) < 5 or c.get('cli_solved', 0) < 5:
         res.inconclusive.append(f'CLI form-order layer: too few comparisons / verdict kinds ({c.get("cli_order_comparisons", 0)}, failed {c.get("cli_failed", 0)}, solved {c.get("cli_solved", 0)})')
